@@ -456,7 +456,7 @@ func formatAppendString(verb *formatVerb, buf *bytes.Buffer, arg cty.Value) erro
 	// clusters.
 
 	str := arg.AsString()
-	if verb.Prec > 0 {
+	if verb.Prec >= 0 { // (-1 when no precision was given)
 		strB := []byte(str)
 		pos := 0
 		wanted := verb.Prec
